@@ -165,22 +165,23 @@ def _place(fn, placement):
 
     def acc_dtype(s):
         return jnp.int32 if s.dtype == jnp.bool_ else s.dtype
-    if placement == "fori":
+    if placement == "fori":          # the inputs travel in the loop state (no closure over outer tracers)
         def in_fori(*xs):
             shp = jax.eval_shape(flat, *xs)
             init = [jnp.zeros(s.shape, acc_dtype(s)) for s in shp]
 
-            def body(i, acc):
-                ys = flat(*xs)
-                return [a + y.astype(a.dtype) * (i + 1).astype(a.dtype) for a, y in zip(acc, ys)]
-            return lax.fori_loop(0, 2, body, init)
+            def body(i, st):
+                acc, ins = st
+                ys = flat(*ins)
+                return [a + y.astype(a.dtype) * (i + 1).astype(a.dtype) for a, y in zip(acc, ys)], ins
+            return lax.fori_loop(0, 2, body, (init, list(xs)))[0]
         return in_fori
     if placement == "scan":
         def in_scan(*xs):
             def body(c, t):
-                ys = flat(*xs)
-                return c + 1, [y.astype(acc_dtype(y)) * (t + 1).astype(acc_dtype(y)) for y in ys]
-            _, yss = lax.scan(body, jnp.int32(0), jnp.arange(2, dtype=jnp.int32))
+                ys = flat(*c)
+                return c, [y.astype(acc_dtype(y)) * (t + 1).astype(acc_dtype(y)) for y in ys]
+            _, yss = lax.scan(body, list(xs), jnp.arange(2, dtype=jnp.int32))
             return yss
         return in_scan
     raise ValueError(placement)
@@ -190,33 +191,49 @@ PLACEMENTS_QUICK_ALT = ("fori", "cond", "jit")
 PLACEMENTS_ALL = ("top", "fori", "cond", "jit", "scan")
 
 
+
+
 # ------------------------------------------------------------------------------------------------ the matrix
 class _Reg:
-    def __init__(self):
-        self.groups = []         # (group, sites, [(label, fn, inputs)], placements_ok)
+    """groups: (group, declared guard sites, [(label, fn, inputs, to_onnx kwargs)], placements allowed)"""
 
-    def add(self, group, sites, inputs, variants, place=True):
+    def __init__(self):
+        self.groups = []
+
+    def add(self, group, sites, inputs, variants, place=True, kw=None):
         vs = []
         for v in variants:
-            if len(v) == 2:
-                vs.append((v[0], v[1], inputs))
-            else:
-                vs.append((v[0], v[1], v[2]))
-        self.groups.append((group, tuple(sites), vs, place))
+            vs.append((v[0], v[1], v[2] if len(v) > 2 and v[2] is not None else inputs, v[3] if len(v) > 3 else kw))
+        assert len({v[0] for v in vs}) == len(vs), f"duplicate label in {group}"
+        assert all(g[0] != group for g in self.groups), f"duplicate group {group}"
+        self.groups.append((group, tuple(sites), vs, place and not kw))
 
 
-def _registry():
-    import c16_matrix_programs  # noqa  (kept in this file: see _programs)
-    raise RuntimeError
+_REG = None
+
+
+def _build():
+    global _REG
+    if _REG is None:
+        global jax, jnp, lax, np
+        import jax
+        import jax.numpy as jnp
+        import numpy as np
+        from jax import lax
+        reg = _Reg()
+        for name in sorted(globals()):
+            if name.startswith("_progs_"):
+                globals()[name](reg)
+        _REG = reg
+    return _REG
 
 
 def entries(tier):
-    """ordered {name: (group, label, placement)}; cheap (no JAX import)"""
-    reg = _build(None)
+    """ordered {name: (group, label, placement)}"""
+    reg = _build()
     out = {}
-    gi = 0
-    for group, sites, vs, place in reg.groups:
-        for vi, (label, _fn, _inp) in enumerate(vs):
+    for gi, (group, sites, vs, place) in enumerate(reg.groups):
+        for vi, v in enumerate(vs):
             if not place:
                 pls = ("top",)
             elif tier == "quick":
@@ -224,15 +241,392 @@ def entries(tier):
             else:
                 pls = PLACEMENTS_ALL
             for pl in pls:
-                out[f"{group}/{label}@{pl}"] = (group, label, pl)
-        gi += 1
+                out[f"{group}/{v[0]}@{pl}"] = (group, v[0], pl)
     return out
 
 
-def _lookup(reg, group, label):
-    for g, sites, vs, place in reg.groups:
+def _lookup(group, label):
+    for g, sites, vs, place in _build().groups:
         if g == group:
-            for lb, fn, inp in vs:
-                if lb == label:
-                    return fn, inp
+            for v in vs:
+                if v[0] == label:
+                    return v[1], v[2], v[3] or {}
     raise KeyError((group, label))
+
+
+def _parse(name):
+    head, pl = name.rsplit("@", 1)
+    group, label = head.split("/", 1)
+    return group, label, pl
+
+
+# ------------------------------------------------------------------------------------------------ one entry
+ORT_SKIP_TOKENS = ("NOT_IMPLEMENTED", "ValidateOpsetForDomain", "is under development", "Could not find an implementation",
+                   "only *guarantees* support", "No Op registered for", "is not a registered function/op")
+
+
+def _fmt(a):
+    import numpy as np
+    a = np.asarray(a)
+    return np.array2string(a.reshape(-1)[:12], precision=5, separator=",", max_line_width=200) + (f"... shape {a.shape}" if a.size > 12 else f" shape {a.shape}")
+
+
+def _compare(got, ref):
+    """None when equal, else a description"""
+    import numpy as np
+    if len(got) != len(ref):
+        return f"output count: JAX {len(ref)} vs ORT {len(got)}"
+    for j, (g, r) in enumerate(zip(got, ref)):
+        g, r = np.asarray(g), np.asarray(r)
+        if r.dtype.kind not in "fiub" or str(r.dtype) == "bfloat16":
+            continue
+        if tuple(g.shape) != tuple(r.shape):
+            return f"output {j} shape: JAX {r.shape} vs ORT {g.shape}"
+        if r.dtype.kind == "f":
+            if g.dtype.kind not in "fiub":
+                return f"output {j} dtype: JAX {r.dtype} vs ORT {g.dtype}"
+            ok = np.allclose(g.astype(np.float64), r.astype(np.float64), rtol=1e-4, atol=1e-5, equal_nan=True)
+        else:
+            if g.dtype.kind == "f":
+                ok = np.array_equal(g.astype(np.float64), r.astype(np.float64))
+            else:
+                ok = np.array_equal(g.astype(np.int64), r.astype(np.int64))
+        if not ok:
+            return f"output {j}: JAX {_fmt(r)} vs ORT {_fmt(g)}"
+    return None
+
+
+def _raise_site(exc, root):
+    """(relative file, line) of the innermost frame of the traceback that lies in jax2onnx/plugins|converter"""
+    best = None
+    e = exc
+    seen = 0
+    while e is not None and seen < 6:
+        for fr in traceback.extract_tb(e.__traceback__):
+            fn = fr.filename
+            if fn.startswith(root) and ("/jax2onnx/plugins/" in fn or "/jax2onnx/converter/" in fn):
+                best = (os.path.relpath(fn, root), fr.lineno)
+        if best:
+            break
+        e = e.__cause__ or e.__context__
+        seen += 1
+    return best
+
+
+def _nchw(x):
+    import numpy as np
+    return np.transpose(x, (0, 3, 1, 2)) if np.ndim(x) == 4 else x
+
+
+def _phase_eager(name, n_draws, seed):
+    """build the program, draw the inputs, evaluate eager JAX (BEFORE any export in this process)"""
+    import jax
+    import numpy as np
+    group, label, pl = _parse(name)
+    fn, inputs, kw = _lookup(group, label)
+    st = {"name": name, "kw": kw}
+    try:
+        base = zlib.crc32(f"{group}/{label}".encode())
+        feeds = []
+        for k in range(n_draws):
+            rng = np.random.default_rng(base + 7919 * k + (0 if k == 0 else seed))
+            feeds.append([_draw(s, rng, k) for s in inputs])
+        placed = _place(fn, pl)
+        st["fn"], st["feeds"] = placed, feeds
+        st["specs"] = [jax.ShapeDtypeStruct(x.shape, x.dtype) for x in feeds[0]]
+    except Exception as e:  # noqa
+        st["final"] = {"name": name, "status": "harness_error", "why": f"build: {type(e).__name__}: {str(e)[:200]}"}
+        return st
+    refs = []
+    try:
+        for xs in feeds:
+            refs.append([np.asarray(y) for y in placed(*xs)])
+    except Exception as e:  # noqa
+        st["final"] = {"name": name, "status": "jax_invalid", "why": f"{type(e).__name__}: {str(e)[:160]}"}
+        return st
+    st["refs"] = refs
+    return st
+
+
+def _phase_export(st, root):
+    import numpy as np
+    if "final" in st:
+        return st["final"]
+    name = st["name"]
+    kw = dict(st["kw"])
+    from jax2onnx import to_onnx
+    try:
+        model = to_onnx(st["fn"], list(st["specs"]), **kw)
+    except Exception as e:  # noqa  -- loud: fine
+        return {"name": name, "status": "raised", "site": _raise_site(e, root), "why": f"{type(e).__name__}: {str(e)[:140]}"}
+    import onnxruntime as ort
+    so = ort.SessionOptions()
+    so.log_severity_level = 4
+    so.graph_optimization_level = ort.GraphOptimizationLevel.ORT_DISABLE_ALL
+    so.intra_op_num_threads = 1
+    so.inter_op_num_threads = 1
+    try:
+        sess = ort.InferenceSession(model.SerializeToString(), so, providers=["CPUExecutionProvider"])
+    except Exception as e:  # noqa
+        msg = str(e)
+        if any(t in msg for t in ORT_SKIP_TOKENS):
+            return {"name": name, "status": "ort_skip", "why": msg[:160]}
+        return {"name": name, "status": "ort_fail", "why": "exported model does not load in onnxruntime: " + msg[:300]}
+    ins = sess.get_inputs()
+    tmap = {"tensor(float)": np.float32, "tensor(double)": np.float64, "tensor(int64)": np.int64, "tensor(int32)": np.int32,
+            "tensor(bool)": np.bool_, "tensor(float16)": np.float16, "tensor(int8)": np.int8, "tensor(uint8)": np.uint8,
+            "tensor(int16)": np.int16, "tensor(uint16)": np.uint16, "tensor(uint32)": np.uint32, "tensor(uint64)": np.uint64}
+    nchw_in = set(kw.get("inputs_as_nchw") or ())
+    nchw_out = set(kw.get("outputs_as_nchw") or ())
+    for k, (xs, ref) in enumerate(zip(st["feeds"], st["refs"])):
+        if len(ins) != len(xs):
+            return {"name": name, "status": "mismatch", "why": f"the model has {len(ins)} inputs, the program {len(xs)}"}
+        feed = {}
+        for j, (i, x) in enumerate(zip(ins, xs)):
+            x = _nchw(x) if j in nchw_in else x
+            feed[i.name] = np.ascontiguousarray(x.astype(tmap[i.type]) if i.type in tmap else x)
+        try:
+            got = sess.run(None, feed)
+        except Exception as e:  # noqa
+            msg = str(e)
+            if any(t in msg for t in ORT_SKIP_TOKENS):
+                return {"name": name, "status": "ort_skip", "why": msg[:160]}
+            return {"name": name, "status": "ort_fail", "why": "exported model fails at run time in onnxruntime: " + msg[:300]}
+        ref = [_nchw(r) if j in nchw_out else r for j, r in enumerate(ref)]
+        why = _compare(got, ref)
+        if why:
+            return {"name": name, "status": "mismatch", "draw": k,
+                    "why": why + " | inputs " + "; ".join(_fmt(x) for x in xs)[:400]}
+    return {"name": name, "status": "ok"}
+
+
+def _work(job):
+    names, n_draws, seed = job
+    import logging
+    logging.disable(logging.CRITICAL)
+    os.environ.setdefault("JAX_PLATFORMS", "cpu")
+    os.environ.setdefault("OMP_NUM_THREADS", "1")
+    os.environ.setdefault("OPENBLAS_NUM_THREADS", "1")
+    if "intra_op_parallelism_threads" not in os.environ.get("XLA_FLAGS", ""):
+        os.environ["XLA_FLAGS"] = (os.environ.get("XLA_FLAGS", "") + " --xla_cpu_multi_thread_eigen=false intra_op_parallelism_threads=1").strip()
+    root = _repo_root()
+    import time
+    t0 = time.time()
+    sts = [_phase_eager(n, n_draws, seed) for n in names]          # every eager reference first
+    t1 = time.time()
+    out = []
+    for st in sts:
+        try:
+            out.append(_phase_export(st, root))
+        except Exception as e:  # noqa
+            out.append({"name": st["name"], "status": "harness_error", "why": f"{type(e).__name__}: {str(e)[:200]}"})
+    if out:
+        out[0]["timing"] = (round(t1 - t0, 1), round(time.time() - t1, 1), len(names))
+    return out
+
+
+def run_matrix(names, n_draws, seed, procs=None):
+    from multiprocessing import get_context
+    procs = procs or max(2, min(10, (os.cpu_count() or 4) // 2))
+    procs = min(procs, max(1, len(names)))
+    pp = os.environ.get("PYTHONPATH", "")
+    if HERE not in pp.split(":"):
+        os.environ["PYTHONPATH"] = HERE + (":" + pp if pp else "")
+    os.environ.setdefault("JAX_PLATFORMS", "cpu")
+    chunks = [names[i::procs] for i in range(procs)]
+    with get_context("spawn").Pool(procs, maxtasksperchild=1) as p:
+        res = p.map(_work, [(c, n_draws, seed) for c in chunks], chunksize=1)
+    by = {r["name"]: r for rs in res for r in rs}
+    return [by[n] for n in names]
+
+
+# ------------------------------------------------------------------------------------------------ sweep
+def _match_sites(inv, pattern):
+    """pattern 'path/suffix.py::substring' -> indices of inventory sites whose conditions or message contain it"""
+    suffix, _, sub = pattern.partition("::")
+    out = []
+    for i, g in enumerate(inv):
+        if g["file"].endswith(suffix) and (not sub or sub in " && ".join(g["conds"]) or sub in g["msg"] or sub == g["func"]):
+            out.append(i)
+    return out
+
+
+def sweep_guard_matrix(ctx, tier=None):
+    tier = tier or ctx.tier
+    root = _repo_root()
+    inv = inventory(root)
+    guards = [g for g in inv if _is_guard(g)]
+    per_file = {}
+    for g in guards:
+        per_file[g["file"]] = per_file.get(g["file"], 0) + 1
+    reg = _build()
+    ent = entries(tier)
+    names = list(ent)
+    declared = set()
+    unresolved = []
+    for group, sites, vs, place in reg.groups:
+        for pat in sites:
+            m = _match_sites(inv, pat)
+            if not m:
+                unresolved.append(f"{group}: {pat}")
+            declared.update(m)
+    res = run_matrix(names, 2 if tier == "quick" else 4, ctx.seed)
+    line_to_site = {}
+    for i, g in enumerate(inv):
+        for ln in range(g["line"], g["end_line"] + 1):
+            line_to_site[(g["file"], ln)] = i
+    hist, fired, fired_groups, exported_groups = {}, set(), {}, set()
+    for r in res:
+        hist[r["status"]] = hist.get(r["status"], 0) + 1
+        group = _parse(r["name"])[0]
+        if r["status"] == "raised" and r.get("site"):
+            s = line_to_site.get(tuple(r["site"]))
+            if s is not None:
+                fired.add(s)
+                fired_groups.setdefault(group, set()).add(s)
+        if r["status"] in ("ok", "mismatch", "ort_fail", "ort_skip"):
+            exported_groups.add(group)
+        if r["status"] == "mismatch":
+            ctx.violate(f"guard-matrix {r['name']}",
+                        f"parameter combination {r['name']} is exported by to_onnx (no exception) but the model computes something else: {r['why']}",
+                        {"kind": "guard_matrix", "case": r["name"]})
+        elif r["status"] == "ort_fail":
+            ctx.violate(f"guard-matrix {r['name']}",
+                        f"parameter combination {r['name']} is exported by to_onnx (no exception) but {r['why']}",
+                        {"kind": "guard_matrix", "case": r["name"]})
+    both_sides = set()
+    for g, ss in fired_groups.items():
+        if g in exported_groups:
+            both_sides |= ss
+    ctx.coverage["guard_matrix"] = {
+        "guard_sites_inventoried": len(guards), "raise_statements_total": len(inv), "guard_sites_per_file": per_file,
+        "neighbourhoods": len(reg.groups), "entries": len(names), "outcomes": hist,
+        "sites_declared_by_neighbourhoods": len(declared),
+        "sites_fired_by_some_entry(measured)": len(fired),
+        "sites_fired_and_neighbourhood_also_exports(measured)": len(both_sides),
+        "sites_covered(declared or fired)": len(declared | fired),
+        "declared_patterns_unresolved": unresolved,
+        "fired_sites": sorted(f"{inv[i]['file']}:{inv[i]['func']}:{(inv[i]['conds'] or ['<unconditional>'])[-1][:60]}" for i in fired),
+        "harness_errors": [r for r in res if r["status"] == "harness_error"][:10],
+        "jax_invalid": [r["name"] for r in res if r["status"] == "jax_invalid"][:40],
+        "ort_skipped": [r["name"] for r in res if r["status"] == "ort_skip"][:40],
+        "rule": "raise, or be right: each entry exported with the real to_onnx; an export is compared in onnxruntime (CPU, no graph "
+                "optimisation) with eager JAX evaluated before the export; rtol 1e-4 atol 1e-5, ints/bools exact, shapes equal",
+    }
+    ctx.guard_matrix_results = res
+    return len(names)
+
+
+def replay_case(name):
+    """re-run one matrix entry in this process; 1 when it still fails"""
+    os.environ.setdefault("JAX_PLATFORMS", "cpu")
+    r = _work(([name], 4, int(os.environ.get("VERIF_SEED", "0") or 0)))[0]
+    print(f"guard-matrix {name}: {r['status']} {r.get('why', '')}")
+    return 1 if r["status"] in ("mismatch", "ort_fail") else 0
+
+
+# ------------------------------------------------------------------------------------------------ programs: control flow
+def _i32(*v):
+    return tuple(np.asarray(x, np.int32) for x in v)
+
+
+def _progs_a_control(reg):
+    # ---- lax.scan: reverse x (xs | length only) x (per-iteration outputs | none) ; unroll ; pytrees
+    vs = []
+    for rev in (0, 1):
+        for ys in (0, 1):
+            vs.append((f"xs,ys={ys},rev={rev}",
+                       (lambda rev, ys: lambda c0, xs: lax.scan(lambda c, x: (c * 0.5 + x, (c - x) if ys else None), c0, xs, reverse=bool(rev)))(rev, ys)))
+            vs.append((f"len,ys={ys},rev={rev}",
+                       (lambda rev, ys: lambda c0, xs: lax.scan(lambda c, _: (c * 0.5 + 1.0, (c * 2.0) if ys else None), c0, None, length=4, reverse=bool(rev)))(rev, ys)))
+        vs.append((f"len,counter,rev={rev}",
+                   (lambda rev: lambda c0, xs: lax.scan(lambda c, _: ((c[0] + 1, c[1] + c[0].astype(jnp.float32)), c[1] * (c[0] + 1).astype(jnp.float32)),
+                                                          (jnp.int32(0), c0), None, length=3, reverse=bool(rev)))(rev)))
+        vs.append((f"xs2,ys2,rev={rev}",
+                   (lambda rev: lambda c0, xs: lax.scan(lambda c, x: (c + x[0] * x[1], (c * x[0], x[1] - c)), c0, (xs, xs[::-1] * 2.0), reverse=bool(rev)))(rev)))
+        vs.append((f"xs+len,rev={rev}",
+                   (lambda rev: lambda c0, xs: lax.scan(lambda c, x: (c - x, c * x), c0, xs, length=4, reverse=bool(rev)))(rev)))
+        for un in (2, True):
+            vs.append((f"xs,unroll={un},rev={rev}",
+                       (lambda rev, un: lambda c0, xs: lax.scan(lambda c, x: (c * 0.5 + x, c - x), c0, xs, reverse=bool(rev), unroll=un))(rev, un)))
+            vs.append((f"len,unroll={un},rev={rev}",
+                       (lambda rev, un: lambda c0, xs: lax.scan(lambda c, _: (c * 0.5 + 1.0, c * 2.0), c0, None, length=4, reverse=bool(rev), unroll=un))(rev, un)))
+    reg.add("scan.reverse", ["lax/scan.py::reverse", "lax/scan.py::static length"], [F(3), F(4, 3)], vs)
+
+    # ---- lax.map / batch_size (remainder) ; associative_scan reverse x axis
+    reg.add("map.batch_size", ["lax/scan.py::Expected at least one scanned input"], [F(5, 3)], [
+        ("plain", lambda xs: lax.map(lambda r: r * jnp.arange(3.0) + r[0], xs)),
+        ("batch=2(remainder)", lambda xs: lax.map(lambda r: r * jnp.arange(3.0) + r[0], xs, batch_size=2)),
+        ("batch=5", lambda xs: lax.map(lambda r: r * jnp.arange(3.0) + r[0], xs, batch_size=5)),
+        ("batch=1", lambda xs: lax.map(lambda r: jnp.cumsum(r), xs, batch_size=1)),
+    ])
+    vs = []
+    for rev in (0, 1):
+        for ax in (0, 1):
+            vs.append((f"add,rev={rev},axis={ax}", (lambda rev, ax: lambda x: lax.associative_scan(jnp.add, x, reverse=bool(rev), axis=ax))(rev, ax)))
+            vs.append((f"affine,rev={rev},axis={ax}",
+                       (lambda rev, ax: lambda x: lax.associative_scan(lambda a, b: (a[0] * b[0], a[1] * b[0] + b[1]), (x * 0.3, x + 1.0),
+                                                                        reverse=bool(rev), axis=ax))(rev, ax)))
+    reg.add("associative_scan.reverse_axis", [], [F(5, 4)], vs)
+
+    # ---- fori_loop: bounds on both sides of `lower != 0 and trip_count < 0`; the body uses i
+    vs = []
+    for lo, hi in ((0, 3), (2, 5), (5, 2), (0, 0), (0, -2), (-2, 1), (3, 3), (-3, -5)):
+        vs.append((f"static {lo}..{hi}", (lambda lo, hi: lambda x: lax.fori_loop(lo, hi, lambda i, c: c * 0.5 + i, x))(lo, hi)))
+    vs.append(("static 1..4,unroll=2", lambda x: lax.fori_loop(1, 4, lambda i, c: c * 0.5 + i, x, unroll=2)))
+    vs.append(("static 1..4,tuple state", lambda x: lax.fori_loop(1, 4, lambda i, c: (c[0] * 0.5 + c[1], c[1] + i), (x, jnp.float32(1.0)))))
+    reg.add("fori_loop.bounds", ["lax/fori_loop.py::trip_count < 0", "lax/fori_loop.py::body_jaxpr"], [F(3)], vs)
+    body = lambda i, c: c * 0.5 + i.astype(jnp.float32)      # noqa: E731
+    reg.add("fori_loop.traced_bounds", ["lax/while_loop.py::lower"], [C(*_i32(1, 3, 0)), C(*_i32(4, 1, 0)), F(3)], [
+        ("lo,hi traced", lambda lo, hi, x: lax.fori_loop(lo, hi, body, x)),
+        ("hi traced", lambda lo, hi, x: lax.fori_loop(0, hi, body, x)),
+        ("lo traced", lambda lo, hi, x: lax.fori_loop(lo, 4, body, x)),
+    ])
+
+    # ---- while_loop: trip counts 0/1/5, cond consts, mixed state, vmapped predicate (per-example trip count)
+    reg.add("while_loop.trips", ["lax/while_loop.py::at least one state variable", "lax/while_loop.py::cond/body jaxpr"],
+            [C(*_i32(0, 5, 1)), F(3)], [
+        ("counter", lambda n, x: lax.while_loop(lambda s: s[0] < n, lambda s: (s[0] + 1, s[1] * 0.5 + s[0].astype(jnp.float32)), (jnp.int32(0), x))),
+        ("cond closes over x", lambda n, x: lax.while_loop(lambda s: jnp.logical_and(s[0] < n, jnp.sum(s[1]) < jnp.sum(jnp.abs(x)) + 40.0),
+                                                        lambda s: (s[0] + 1, s[1] + jnp.abs(x)), (jnp.int32(0), x))),
+        ("mixed state", lambda n, x: lax.while_loop(lambda s: s[0] < n, lambda s: (s[0] + 1, s[1] - 1.0, s[2] | (s[0] > 1), s[3] * 2),
+                                                  (jnp.int32(0), x, jnp.zeros((), bool), jnp.ones((2,), jnp.int32)))),
+        ("empty extra state", lambda n, x: lax.while_loop(lambda s: s[0] < n, lambda s: (s[0] + 2, s[1] * 1.5, ()), (jnp.int32(0), x, ()))[:2]),
+        ("passthrough state", lambda n, x: lax.while_loop(lambda s: s[0] < n, lambda s: (s[0] + 1, s[2], s[1] + 1.0), (jnp.int32(0), x, x * 2.0))),
+    ])
+    wl = lambda x, n: lax.while_loop(lambda s: s[0] < n, lambda s: (s[0] + 1, s[1] * 0.5 + 1.0), (jnp.int32(0), x))[1]     # noqa: E731
+    reg.add("while_loop.vmapped", ["lax/while_loop.py::vmapped while_loop state", "lax/while_loop.py::predicate_rank"],
+            [F(3, 2), C(np.asarray([0, 2, 5], np.int32), np.asarray([3, 3, 1], np.int32))], [
+        ("vmap x,n", lambda xs, ns: jax.vmap(wl)(xs, ns)),
+        ("vmap x only", lambda xs, ns: jax.vmap(lambda x: wl(x, ns[1]))(xs)),
+        ("vmap n only", lambda xs, ns: jax.vmap(lambda n: wl(xs[0], n))(ns)),
+        ("vmap scalar state", lambda xs, ns: jax.vmap(lambda x, n: lax.while_loop(lambda s: s[0] < n, lambda s: (s[0] + 1, s[1] * 0.5 + 1.0), (jnp.int32(0), x[0]))[1])(xs, ns)),
+        ("vmap fori traced", lambda xs, ns: jax.vmap(lambda x, n: lax.fori_loop(0, n, lambda i, c: c * 0.5 + 1.0, x))(xs, ns)),
+    ])
+
+    # ---- cond / switch: predicate kinds, branch counts, out-of-range index (clamped by JAX)
+    reg.add("cond.pred", ["lax/cond.py::"], [C(np.bool_(True), np.bool_(False)), F(3)], [
+        ("bool", lambda p, x: lax.cond(p, lambda a: a + 1.0, lambda a: a * 2.0, x)),
+        ("passthrough branch", lambda p, x: lax.cond(p, lambda a: a, lambda a: a * 2.0, x)),
+        ("two outputs swapped", lambda p, x: lax.cond(p, lambda a: (a, a + 1.0), lambda a: (a + 1.0, a), x)),
+        ("closure", lambda p, x: lax.cond(p, lambda a: a + jnp.sum(x), lambda a: a * x[0], x * 3.0)),
+        ("const branch", lambda p, x: lax.cond(p, lambda a: jnp.ones(3, jnp.float32) * 7.0, lambda a: a, x)),
+        ("no operand", lambda p, x: x + lax.cond(p, lambda: 1.0, lambda: 2.0)),
+        ("nested", lambda p, x: lax.cond(p, lambda a: lax.cond(a[0] > 0, lambda b: b + 1.0, lambda b: b - 1.0, a), lambda a: a * 2.0, x)),
+    ])
+    reg.add("cond.pred_int", ["lax/cond.py::"], [C(*_i32(0, 3, -1)), F(3)], [
+        ("int pred", lambda p, x: lax.cond(p, lambda a: a + 1.0, lambda a: a * 2.0, x)),
+        ("int!=0", lambda p, x: lax.cond(p != 0, lambda a: a + 1.0, lambda a: a * 2.0, x)),
+    ])
+    br = [lambda a: a + 1.0, lambda a: a * 2.0, lambda a: a - 3.0, lambda a: a * a]
+    vs = []
+    for n in (1, 2, 3, 4):
+        vs.append((f"{n} branches", (lambda n: lambda i, x: lax.switch(i, br[:n], x))(n)))
+    vs.append(("3 branches,two outputs", lambda i, x: lax.switch(i, [lambda a: (a, a + 1.0), lambda a: (a * 2.0, a), lambda a: (a - 1.0, a * a)], x)))
+    vs.append(("3 branches,clipped idx expr", lambda i, x: lax.switch(jnp.clip(i, 0, 2), br[:3], x)))
+    reg.add("switch.branches", ["lax/cond.py::"], [C(*_i32(1, 0, 2, 3)), F(3)], vs)
+    reg.add("switch.index_out_of_range", ["lax/cond.py::"], [C(*_i32(-1, 7, -5, 2)), F(3)], [
+        ("2 branches", lambda i, x: lax.switch(i, br[:2], x)),
+        ("3 branches", lambda i, x: lax.switch(i, br[:3], x)),
+        ("4 branches", lambda i, x: lax.switch(i, br[:4], x)),
+    ])
